@@ -382,10 +382,20 @@ def main(ctx):
     ]
     # ---------------------------------------------------------------- 1. translate
     tie_ok = True
+    degraded = {}
+    tables_text = None
     try:
-        tables, consumed = c01_tables.translate(str(lib.REPO))
+        tables, consumed, degraded = c01_tables.translate_degrading(str(lib.REPO))
         ctx.sources = consumed
-        lib.write_if_changed(lib.COQ / 'C01' / 'gen' / 'Tables.v', c01_tables.emit(tables))
+        tables_text = c01_tables.emit(tables)
+        lib.write_if_changed(lib.COQ / 'C01' / 'gen' / 'Tables.v', tables_text)
+        if degraded:
+            # policy T -> H: the regions the translator could not read are taken from the
+            # committed translation of the registered tree (translate/c01_baseline.json); what
+            # they decide is decided below by a widened correspondence / oracle instead
+            for k, why in degraded.items():
+                ctx.log(f'translator could not read region {k}: {why} -> baseline model + widened correspondence')
+            ctx.notes['degraded_regions'] = degraded
         ctx.notes['translated_tables'] = {k: tables[k] for k in (
             'prism_perm_write', 'prism_write_codes', 'prism_perm_read', 'prism_read_type',
             'frac_digits', 'ignore_pats', 'ignore_src', 'rebind_by_id', 'merge_egroups',
@@ -402,6 +412,16 @@ def main(ctx):
     props = lib.COQ / 'C01' / 'Props.v'
     if tie_ok and props.exists():
         proof_ok, log = ctx.build_props('C01/Props.v')
+        # coq/C01/gen/Tables.v is also written by the C03 check (same translator); if a C03
+        # run against another tree replaced it in between, write ours again and rebuild
+        for _ in range(2):
+            tv = lib.COQ / 'C01' / 'gen' / 'Tables.v'
+            if tv.read_text() == tables_text:
+                break
+            ctx.log('gen/Tables.v was replaced by a concurrent run: regenerating and rebuilding')
+            lib.write_if_changed(tv, tables_text)
+            ctx.obligations.clear()
+            proof_ok, log = ctx.build_props('C01/Props.v')
         if not proof_ok:
             ctx.notes['build_log_tail'] = log[-2500:]
         if (lib.COQ / 'C01' / 'PropsCfg.v').exists():
@@ -427,6 +447,10 @@ def main(ctx):
 
     # ---------------------------------------------------------------- 3. cases
     n_mesh = {'quick': 40, 'thorough': 600}.get(tier, 40)
+    n_extra = 0
+    if degraded and tier != 'thorough':
+        n_mesh = 64          # widened correspondence (text + read + variants inside Coq)
+        n_extra = 200        # + implementation-side oracle only (round trip, rewrite, variants)
     meshes = []
     corpus = sorted((lib.VERIF / 'corpus' / 'C01').glob('*.json')) \
         if (lib.VERIF / 'corpus' / 'C01').exists() else []
@@ -440,8 +464,19 @@ def main(ctx):
     meshes.append(cm.gen_mesh(ctx.rng, size='large', types=list(cm.WRITER_TYPES)))
     meshes.append(cm.gen_mesh(ctx.rng, types=['tet', 'prism'],
                               features={'n_unref': 2, 'temp': 'permuted', 'groups': 'singletons'}))
+    if degraded:
+        # every writer type alone once more, with groups / sections / temperatures / unreferenced
+        # nodes, and the pairs with a prism: what the translated tables and flags decide
+        for t in cm.WRITER_TYPES:
+            meshes.append(cm.gen_mesh(ctx.rng, types=[t], features={
+                'n_unref': 1, 'temp': 'permuted', 'groups': 'some', 'sections': 'some'}))
+        for t in ('tet', 'hex', 'tri'):
+            meshes.append(cm.gen_mesh(ctx.rng, types=['prism', t]))
     while len(meshes) < n_mesh + len(corpus):
         meshes.append(cm.gen_mesh(ctx.rng, size='small' if ctx.rng.random() < 0.8 else 'large'))
+    n_coq = len(meshes)
+    for _ in range(n_extra):
+        meshes.append(cm.gen_mesh(ctx.rng, size='small' if ctx.rng.random() < 0.7 else 'large'))
     work = ctx.scratch / 'work'
     jobs = [{'op': 'write_read', 'id': i, 'dir': str(work / f'm{i}'), 'mesh': cm.child_mesh(ctx.rng, m),
              'msh_only': True} for i, m in enumerate(meshes)]
@@ -475,7 +510,10 @@ def main(ctx):
         if lines and lines[-1] == '':
             lines = lines[:-1]
         r['lines'] = lines
-        for kind, vl in make_variants(ctx.rng, lines, tier):
+        variants = make_variants(ctx.rng, lines, tier)
+        if i >= n_coq:
+            variants = ctx.rng.sample(variants, min(2, len(variants)))
+        for kind, vl in variants:
             vid = len(vjobs)
             vinfo[vid] = (i, kind, vl)
             vjobs.append({'op': 'read', 'id': vid, 'dir': str(work / f'v{vid}'),
@@ -535,7 +573,7 @@ def main(ctx):
 
     # ---------------------------------------------------------------- 4. correspondence
     text_items, read_items = [], []
-    for i, m in enumerate(meshes):
+    for i, m in enumerate(meshes[:n_coq]):
         r = res1[i]
         exp = r['lines'] if 'lines' in r else ['ERROR']
         text_items.append((i, f'lines_eqb (show_lines (write_msh_mat {cm.coq_mesh(m)} {cm.coq_mats(m)})) '
@@ -544,8 +582,9 @@ def main(ctx):
             read_items.append((i, f'lines_eqb (show_full {cm.coq_lines(r["lines"])}) '
                                   f'{cm.coq_lines(shown(r))}'))
     for vid, (i, kind, vl) in vinfo.items():
-        read_items.append((100000 + vid, f'lines_eqb (show_full {cm.coq_lines(vl)}) '
-                                         f'{cm.coq_lines(shown(res2[vid]))}'))
+        if i < n_coq:
+            read_items.append((100000 + vid, f'lines_eqb (show_full {cm.coq_lines(vl)}) '
+                                             f'{cm.coq_lines(shown(res2[vid]))}'))
     bad_text = bad_read = None
     if model_ok:
         t0 = time.time()
@@ -563,6 +602,81 @@ def main(ctx):
         + (len(bad_orient) if bad_orient else 0)
     ctx.corr = {'cases': n_corr, 'text_cases': len(text_items), 'read_cases': len(read_items),
                 'disagreements': n_dis if bad_text is not None and bad_read is not None else 'not evaluated'}
+
+    if degraded:
+        ctx.notes['tie'] = ('H (translator could not read ' + '; '.join(f'{k}: {v}' for k, v in degraded.items())
+                            + f'; baseline model + widened correspondence, {n_corr} cases inside Coq, '
+                            f'{len(meshes)} meshes / {len(vinfo)} formatting variants / 70001-row table '
+                            'on the implementation-side oracle)')
+        ctx.trusted.append('regions ' + ', '.join(degraded) + ' of the model are the committed translation of '
+                           'the registered tree (translate/c01_baseline.json), tied by correspondence only')
+    else:
+        ctx.notes['tie'] = 'T (tables / flags re-translated from the tree under test) + H (text / read correspondence in Coq)'
+    # ---------------------------------------------------------------- 4b. translator validation
+    # the functions / constants the translator reads are RUN in femio and compared, inside Coq,
+    # with the generated definitions (gen/Tables.v): detect_fistr_element_type on every type
+    # name, _convert_fistr_element_type on every code of the table and on codes outside it,
+    # _reorder_prism_data on a 2 x 6 array, ELEMENT_TYPES
+    tv_bad = None
+    if model_ok:
+        types_probe = list(dict.fromkeys(c01_tables.KNOWN_TYPE_NAMES + list(tables['element_types'])
+                                         + ['no_such_type', '', 'TET']))
+        codes_probe = ['000', '35', '3511', ' 351', '', '351 ', 'tet'] + [c for _, c in tables['detect_table']]
+        tvr = cm.run_child(ctx, [{'op': 'tables', 'id': 'tv', 'types': types_probe,
+                                  'codes': codes_probe}], 'tables')['tv']
+        tv_items = []
+        tv_what = {}
+        if 'fatal' in tvr:
+            # femio cannot even be imported / the classes are gone: every other stream fails too
+            ctx.log('translator validation skipped, femio side failed:', tvr['fatal'])
+            ctx.notes['translator_validation_skipped'] = tvr['fatal']
+        else:
+            def opt(r):
+                return f'Some {lib.coq_str(r[1])}' if r[0] == 'ok' else 'None'
+            if tvr.get('missing'):
+                ctx.notes['translator_validation_missing'] = tvr['missing']
+            for t, r in (tvr.get('detect') or {}).items():
+                tv_what[len(tv_items)] = f'detect_fistr_element_type({t!r}) = {r}'
+                tv_items.append((len(tv_items), f'opt_str_eqb (lookup {lib.coq_str(t)} detect_table) ({opt(r)})'))
+            for c, r in (tvr.get('convert') or {}).items():
+                tv_what[len(tv_items)] = f'_convert_fistr_element_type({c!r}) = {r}'
+                tv_items.append((len(tv_items), f'opt_str_eqb (lookup {lib.coq_str(c)} fistr_elements) ({opt(r)})'))
+            if 'element_types' in tvr:
+                tv_what[len(tv_items)] = f'ELEMENT_TYPES = {tvr["element_types"]}'
+                tv_items.append((len(tv_items), 'lines_eqb element_types '
+                                 + cm.coq_lines(tvr['element_types'])))
+            ro = tvr.get('reorder')
+            if ro is not None:
+                tv_what[len(tv_items)] = f'_reorder_prism_data(arange(12).reshape(2, 6) + 10) = {ro}'
+                if 'rows' in ro and ro.get('argument_unchanged'):
+                    rows = lib.coq_list([lib.coq_list([lib.coq_Z(x) for x in r]) for r in ro['rows']])
+                    tv_items.append((len(tv_items),
+                                     'match mapO (permute prism_perm_write) [[10;11;12;13;14;15]%Z; '
+                                     '[16;17;18;19;20;21]%Z] with Some rs => '
+                                     f'list_eqb (list_eqb Z.eqb) rs {rows} | None => false end'))
+                else:
+                    tv_items.append((len(tv_items), 'false'))
+        head = COQ_HEAD + '\n'.join([
+            'From FV.C01.gen Require Import Tables.',
+            'Definition opt_str_eqb (a b : option string) : bool := match a, b with '
+            'Some x, Some y => String.eqb x y | None, None => true | _, _ => false end.', ''])
+        tv_bad = coq_failing(ctx, 'CorrTables', tv_items, head=head)
+        ctx.log(f'translator validation in Coq ({len(tv_items)} checks): disagreements {tv_bad}')
+        ctx.notes['translator_validation'] = {'checks': len(tv_items), 'disagreements': tv_bad}
+        ctx.corr['cases'] += len(tv_items)
+        ctx.corr['translator_validation_cases'] = len(tv_items)
+        if tv_bad is None:
+            ctx.violation('correspondence', {}, 'translator validation file compiles', 'coqc failed',
+                          'translator validation C01', found_input=False,
+                          signature={'kind': 'correspondence', 'side': 'tables-coqc'})
+        for k in (tv_bad or [])[:3]:
+            ctx.violation('correspondence', {'probe': tv_what.get(k)},
+                          'gen/Tables.v (translated' + (' / baseline' if degraded else '')
+                          + ') agrees with the function run in femio', tv_what.get(k),
+                          'translator validation C01 (tables)', found_input=True,
+                          signature={'kind': 'correspondence', 'side': 'tables',
+                                     'probe': (tv_what.get(k) or '').split('(')[0]},
+                          what='a translated table / permutation differs from what femio computes')
 
     # ---------------------------------------------------------------- 5. property oracle on the implementation
     n_eval = 0
@@ -655,7 +769,7 @@ def main(ctx):
     # sizes: one table with more than 65 536 rows (nodes and initial temperatures), on the
     # implementation only, against the round-trip oracle (thorough tier, and whenever the tie
     # is broken: extended search)
-    if tier == 'thorough' or not tie_ok or not proof_ok:
+    if tier == 'thorough' or not tie_ok or not proof_ok or degraded:
         t0 = time.time()
         big = gen_large(ctx.seed)
         nn = len(big['node_ids'])
@@ -822,6 +936,35 @@ def replay(path):
         print(f'large table ({len(big["node_ids"])} rows): round trip differs in', comps)
         print('property', 'VIOLATED' if comps else 'holds', 'on this input')
         return 1 if comps else 0
+    if 'probe' in c:
+        # translator validation: the translated (or baseline) tables against the functions run in femio
+        tables, _, degraded = c01_tables.translate_degrading(str(lib.REPO))
+        types_probe = list(dict.fromkeys(c01_tables.KNOWN_TYPE_NAMES + list(tables['element_types'])
+                                         + ['no_such_type', '', 'TET']))
+        tvr = cm.run_child(ctx, [{'op': 'tables', 'id': 'tv', 'types': types_probe,
+                                  'codes': ['000', '35', '3511', ' 351', '', '351 ', 'tet']}], 'replay')['tv']
+        print('recorded probe:', c['probe'])
+        print('regions taken from the baseline:', degraded)
+        bad = []
+        dt, fe = dict(tables['detect_table']), dict(tables['fistr_elements'])
+        for t, r in (tvr.get('detect') or {}).items():
+            if (r[1] if r[0] == 'ok' else None) != dt.get(t):
+                bad.append(f'detect_fistr_element_type({t!r}): femio {r}, tables {dt.get(t)!r}')
+        for k, r in (tvr.get('convert') or {}).items():
+            if (r[1] if r[0] == 'ok' else None) != fe.get(k):
+                bad.append(f'_convert_fistr_element_type({k!r}): femio {r}, tables {fe.get(k)!r}')
+        if 'element_types' in tvr and tvr['element_types'] != list(tables['element_types']):
+            bad.append(f'ELEMENT_TYPES: femio {tvr["element_types"]}, tables {tables["element_types"]}')
+        ro = tvr.get('reorder')
+        if ro is not None:
+            want = [[row[i] for i in tables['prism_perm_write']] for row in
+                    ([10, 11, 12, 13, 14, 15], [16, 17, 18, 19, 20, 21])]
+            if ro.get('rows') != want or not ro.get('argument_unchanged'):
+                bad.append(f'_reorder_prism_data: femio {ro}, tables give {want} and leave the argument alone')
+        for b in bad:
+            print('DISAGREES:', b)
+        print('translated tables', 'DISAGREE with' if bad else 'agree with', 'femio on the probes')
+        return 1 if bad else 0
     print('nothing to replay on the implementation:', json.dumps(rp, indent=1)[:2000])
     return 1
 
